@@ -129,7 +129,7 @@ IdTok(w) == LET parts == SplitDots(w) IN <<"id", SubSeq(parts, 1, Len(parts) - 1
 \* result: <<token, next>> | <<"lexerror">> | <<"unknown">>
 LexOne(x, i) ==
   LET c == x[i] IN
-  IF ~IsAscii(c) THEN <<"unknown">>
+  IF ~IsKnown(c) THEN <<"unknown">>
   ELSE IF IsSpace(c) THEN
      LET j == RunEnd(x, i, IsSpace)
          e == RunEnd(x, j, IsAlpha)
@@ -170,7 +170,7 @@ LexOne(x, i) ==
      ELSE IF DecimalEnd(x, i) # 0 THEN << <<"lit", "Float", Slice(x, i, DecimalEnd(x, i))>>, DecimalEnd(x, i) >>
      ELSE << <<"lit", "Integer", Slice(x, i, IntEnd(x, i))>>, IntEnd(x, i) >>
   ELSE IF c = 45 THEN << <<"neg">>, i + 1 >>
-  ELSE IF c = 43 /\ i < Len(x) /\ ~IsAscii(x[i + 1]) THEN <<"unknown">>     \* a sign before a non-ASCII (possibly digit) character
+  ELSE IF c = 43 /\ i < Len(x) /\ ~IsKnown(x[i + 1]) THEN <<"unknown">>     \* a sign before a non-ASCII (possibly digit) character
   ELSE <<"lexerror">>
 
 RECURSIVE LexFrom(_, _, _)
